@@ -194,6 +194,7 @@ func policySide() {
 	}
 	for _, t := range []target{{"NewReader", pdf.NewReader}, {"MakeReader", (*pdf.FileInfo).MakeReader}} {
 		file, _ := runtime.FuncForPC(reflect.ValueOf(t.fn).Pointer()).FileLine(reflect.ValueOf(t.fn).Pointer())
+		file = repoFile(file)
 		fset, lit, err := findShouldExit(file, t.name)
 		for mode := 0; mode <= 2; mode++ {
 			for _, cls := range []string{"nil", "malformed", "other"} {
@@ -202,6 +203,7 @@ func policySide() {
 				obs := ""
 				if err != nil {
 					obs = "untranslatable"
+					e.Sample(20, map[string]any{"policy_source_not_found": err.Error(), "file": file})
 				} else {
 					func() {
 						defer func() {
